@@ -77,7 +77,14 @@ func (h *hist) invalid(kind string, n int) string {
 	case "startup-callback":
 		return strings.Replace(v, " header / X-Verif-Site c\n", " header / X-Verif-Site c\n log / "+filepath.Join(h.dir, "no-such-dir", "access.log")+"\n", 1)
 	case "listen":
-		return v + fmt.Sprintf("http://e.test:%d {\n root %s\n}\n", h.occPort, h.cfgDir(n))
+		// the configuration also opens many further (free) ports, so that setting
+		// up its listeners takes a moment, and one that is taken
+		var b strings.Builder
+		b.WriteString(v)
+		for i, p := range lib.FreePorts(40) {
+			fmt.Fprintf(&b, "http://x%d.test:%d {\n root %s\n}\n", i, p, h.cfgDir(n))
+		}
+		return b.String() + fmt.Sprintf("http://e.test:%d {\n root %s\n}\n", h.occPort, h.cfgDir(n))
 	}
 	return "{"
 }
@@ -139,7 +146,7 @@ func run(c *lib.Ctx) {
 	atomic.StoreInt32(&hookDelayOn, 1)
 	lb := lib.CaptureLog()
 	_ = lb
-	nh := c.Pick(4, 32)
+	nh := c.Pick(5, 35)
 	for h := 0; h < nh; h++ {
 		runHistory(c, h, c.Pick(12, 16), c.Pick(16, 24))
 		if c.Violations() > 10 {
@@ -178,11 +185,22 @@ func runHistory(c *lib.Ctx, hid, nReloads, W int) {
 	// for longer than the (shortened) grace period, on both listeners: the old
 	// servers' graceful stop then times out during each reload, which must not
 	// change the outcome of the reload.
-	stall := hid%4 == 1 || hid%4 == 3
+	mode := hid % 5
+	stall := mode == 1 || mode == 3 || mode == 4
+	stallHold := 900 * time.Millisecond
 	if stall {
-		httpserver.GracefulTimeout = 300 * time.Millisecond
-		if hid%4 == 3 {
+		switch mode {
+		case 1:
+			httpserver.GracefulTimeout = 300 * time.Millisecond
+		case 3:
 			httpserver.GracefulTimeout = 0 // "-grace 0": no waiting at all for the old servers
+		case 4:
+			// default grace period (5 s), connections that stay busy for 1.5 s: every
+			// reload has to wait that long for the old servers, one after the other,
+			// and only then may it report success
+			stallHold = 1500 * time.Millisecond
+			nReloads = 5
+			c.Count("histories_with_slow_drain_under_default_grace", 1)
 		}
 		defer func() { httpserver.GracefulTimeout = 5 * time.Second }()
 		c.Count("histories_with_stalled_connections", 1)
@@ -190,7 +208,7 @@ func runHistory(c *lib.Ctx, hid, nReloads, W int) {
 	// Every fourth history keeps the text handed to Restart constant: the
 	// Casketfile only imports a file, and it is that file which changes from
 	// reload to reload (as with `-conf "*.conf"` or an unchanged main file).
-	importStyle := hid%4 == 2
+	importStyle := mode == 2
 	activeConf := filepath.Join(h.dir, "active.conf")
 	mkInput := func(text string) casket.Input {
 		if importStyle {
@@ -288,7 +306,7 @@ func runHistory(c *lib.Ctx, hid, nReloads, W int) {
 					k.Raw().Write([]byte(fmt.Sprintf("GET /f3.bin HTTP/1.1\r\nHost: %s.test:%d\r\n", st.name, st.port)))
 					select {
 					case <-stop:
-					case <-time.After(900 * time.Millisecond):
+					case <-time.After(stallHold):
 					}
 					// finish the request: it was in flight across whatever reloads happened
 					// meanwhile and must still get one complete, self-consistent answer
@@ -314,7 +332,7 @@ func runHistory(c *lib.Ctx, hid, nReloads, W int) {
 						}
 					}
 					if what != "" {
-						c.Violation("C07/in-flight-request-cut-by-reload", fmt.Sprintf("a request that was in flight (half-sent header, completed %d ms later) while reloads happened got %s (site %s, grace period %v)", 900, what, st.name, httpserver.GracefulTimeout),
+						c.Violation("C07/in-flight-request-cut-by-reload", fmt.Sprintf("a request that was in flight (half-sent header, completed %d ms later) while reloads happened got %s (site %s, grace period %v)", stallHold.Milliseconds(), what, st.name, httpserver.GracefulTimeout),
 							map[string]interface{}{"history": hid, "site": st.name, "grace": httpserver.GracefulTimeout.String()})
 					}
 				}
@@ -340,6 +358,22 @@ func runHistory(c *lib.Ctx, hid, nReloads, W int) {
 			rr = reloadRec{N: next, Kind: "valid"}
 		}
 		c.Journal("C07 h%d reload step %d kind %s", hid, step, rr.Kind)
+		if rr.Kind == "listen" {
+			// the same rejected configuration several times in a row (each attempt is
+			// cheap): whatever it does before it fails gets several chances to be seen
+			for rep := 0; rep < 5; rep++ {
+				r0 := reloadRec{N: rr.N, Kind: rr.Kind, Call: now()}
+				_, err := inst.Restart(mkInput(text))
+				r0.Ret = now()
+				if err == nil {
+					break // reported below by the attempt that is recorded
+				}
+				r0.Err = err.Error()
+				reloads = append(reloads, r0)
+				c.Count("failed_reloads", 1)
+				c.Count("failed_reloads_"+rr.Kind, 1)
+			}
+		}
 		rr.Call = now()
 		ni, err := inst.Restart(mkInput(text))
 		rr.Ret = now()
@@ -387,6 +421,12 @@ func runHistory(c *lib.Ctx, hid, nReloads, W int) {
 	c.Count("requests", int64(len(reqs)))
 	bad := 0
 	for _, r := range reqs {
+		if r.Marker >= 1000 && bad < 3 {
+			bad++
+			c.Violation("C07/request-answered-by-rejected-configuration", fmt.Sprintf("request to site %s at t=%dms was answered by configuration %d, which every reload attempt rejected", r.Site, r.Call/1e6, r.Marker),
+				map[string]interface{}{"history": hid, "request": r, "reloads": reloads})
+			continue
+		}
 		if r.Err != "" {
 			bad++
 			if bad <= 3 {
